@@ -21,7 +21,7 @@ import (
 const nonceWindow = 15 * time.Minute
 
 // nonce kinds: values relative to the virtual clock at the moment of submission, or absolute.
-var c05Kinds = []string{"n", "n+1", "n-1", "stale", "fresh", "far"}
+var c05Kinds = []string{"n", "n+1", "n-1", "n.5", "stale", "fresh", "far"}
 
 func c05Nonce(kind string) int64 {
 	now := vsched.Now().UnixNano()
@@ -33,6 +33,8 @@ func c05Nonce(kind string) int64 {
 		return n0 + 1
 	case "n-1":
 		return n0 - 1
+	case "n.5": // not on a whole second (the persistent driver's records expire on whole seconds)
+		return n0 + int64(500*time.Millisecond)
 	case "stale": // just outside the window
 		return now - int64(nonceWindow) - 1
 	case "fresh": // just inside the window
@@ -89,7 +91,7 @@ func c05StoreBFS(driver string, ids []string, depth, shard, nshards int) vh.Unit
 						evs = append(evs, "nonce "+id+" "+k)
 					}
 				}
-				return append(evs, "tick 1s", "tick 15m", "tick 16m")
+				return append(evs, "tick 1s", "tick 15m", "tick 15m1.2s", "tick 16m")
 			},
 			Apply: func(wi interface{}, ev string, judge bool, hist []string) {
 				w := wi.(*c05World)
@@ -334,6 +336,9 @@ func c05PoolBFS(driver string, depth int) vh.Unit {
 				var evs []string
 				for _, k := range c05Kinds {
 					evs = append(evs, "update A "+k, "update B "+k, "addnode W "+k, "withdraw W "+k, "updold A "+k)
+					if k == "n" || k == "n+1" || k == "n-1" {
+						evs = append(evs, "peer A "+k, "connect A "+k) // the node's other endpoints
+					}
 				}
 				// the captured request submitted again with the identity spelled differently
 				evs = append(evs, "respelled A upper", "respelled A 0x", "respelled A mixed")
@@ -408,6 +413,10 @@ func c05PoolBFS(driver string, depth int) vh.Unit {
 					if refused := vh.IsRefused(err); !refused && id == A {
 						w.last = &captured{sig, n, req}
 					}
+				case "peer", "connect": // the node's other endpoints share its high-water mark
+					idname = A.NodeID
+					endpoint := "vipnode_" + f[0]
+					_, err = vh.NewCall(endpoint, A, n, vh.DefaultParam(endpoint, "")).Invoke(w.pw, context.Background())
 				case "updold": // signed in the deprecated format (old agents)
 					idname = A.NodeID
 					req := pool.UpdateRequest{Peers: []string{}, BlockNumber: 3}
